@@ -437,7 +437,7 @@ class StmtMixin:
         for s, dd in states:
             if s.exc is None:
                 s.frames[s.cur]['$captured'] = True
-                s.setvar(n.name, VFunc('closure', node=n, frame=s.cur, info=s.info(), defaults=dd, name=n.name))
+                s.setvar(n.name, self.register_callable(s, VFunc('closure', node=n, frame=s.cur, info=s.info(), defaults=dd, name=n.name)))
             out.append(s)
         return out
 
